@@ -238,7 +238,9 @@ PROPS = {
                     "reports growth, raises the caller's running class to at least the callee's TRANSITIVE class, and aborts on an unavailable callee.  "
                     "MAX REFERENCE (unit max_reference, the callee arm of compute_max_local_reference_stmt with its three noting loops cut out as "
                     "opaque calls): a call statement is noted as a possible reference of the function's locals in BOTH the callee's transitive "
-                    "capture reads and its transitive capture writes, and of every local of the function when no summary is available."),
+                    "capture reads and its transitive capture writes, and of every local of the function when no summary is available.  EXECUTION "
+                    "(unit block_exec): exec_block_with_flow skips exactly the statements the plan prunes -- every other statement of a block that "
+                    "completes normally is executed, and no pruned one ever is."),
         "not_covered": ("soundness of the dataflow itself with respect to execution: liveness fix-point, compute_block_facts, summary "
                         "propagation to a fixpoint (summarize_component's outer loops; one absorption step is decided), CFG lowering of the other statements and scope kills, the statement-level loops of compute_max_local_reference_stmt and "
                         "build_optimization_plan's loops (arena-resident tables do not terminate in CBMC). Two genuine liveness defects "
@@ -255,7 +257,10 @@ PROPS = {
                     "scope's latest declaration / the innermost defining block.  DECLARATION (Verus, unit resolver_assign: the Stmt::Assign arm of "
                     "Resolver::check_stmt over a ghost record of the current scope): the initializer of `make x get e` is resolved and typed BEFORE "
                     "x is (re)declared, so `make x get x add 1` reads the outer x; afterwards the entry a later use of x sees is the last one and "
-                    "carries e's type; no other name's entry changes.  Index chains (unit index_target): `a[i][j]` resolves through the Var node it is rooted in."),
+                    "carries e's type; no other name's entry changes.  Index chains (unit index_target): `a[i][j]` resolves through the Var node it is rooted in.  Blocks (unit block_exec, the "
+                    "real Runtime::exec_block_with_flow over a ghost scope-depth record): a scope is opened first and closed on EVERY successful way "
+                    "out -- normal completion, return, comot, next -- so the scope stack is as deep afterwards as before and a later lookup cannot "
+                    "see the block's variables; the block's functions are hoisted before its first statement."),
         "not_covered": ("that resolver ids and the dynamic scope search compose to lexical scoping under recursion (needs an invariant "
                         "relating the activation stack to the scope tree across eval_function_call), argument evaluation order, "
                         "per-block predeclaration, assign/define_bound_local (Value's recursive drop glue explodes in CBMC), function tables (user_call_callee, function_by_body)."),
